@@ -206,10 +206,12 @@ func (st *state) onDone(i int) func(*kgo.Client, *kmsg.OffsetCommitRequest, *kms
 	}
 }
 
-func (st *state) allCallsDone() bool {
+func (st *state) allCallsDone() bool { return st.allDone(len(st.calls)) }
+
+func (st *state) allDone(n int) bool {
 	st.mu.Lock()
 	defer st.mu.Unlock()
-	for _, c := range st.calls {
+	for _, c := range st.calls[:n] {
 		if !c.done {
 			return false
 		}
@@ -426,6 +428,15 @@ func scenario(name string, withB bool) *netctl.Scenario {
 				o2 := map[int32]int64{0: 2}
 				o3 := map[int32]int64{0: 3, 1: 2}
 				o4 := map[int32]int64{0: 4}
+				// A synchronous commit returned: every commit issued so far has
+				// finished, so the property already speaks about calls 1..n.
+				mid := func(n int) {
+					if st.allDone(n) {
+						checkState(x, st, n, fmt.Sprintf("after call %d returned", n))
+					} else {
+						x.Violate("sync-returned-early", "synchronous call %d returned while an earlier commit's callback had not run", n)
+					}
+				}
 
 				t.Step("commit1-async")
 				st.issue(1, o1)
@@ -441,11 +452,13 @@ func scenario(name string, withB bool) *netctl.Scenario {
 				if !st.call(3).done {
 					x.Violate("sync-returned-early", "CommitOffsetsSync returned before its callback ran")
 				}
+				mid(3)
 
 				t.Step("commit4-records")
 				st.issue(4, o4)
 				err := st.cl.CommitRecords(bg, st.rec3)
 				st.finish(4, nil, err, false)
+				mid(4)
 
 				t.Step("commit5-uncommitted")
 				issued := false
@@ -535,6 +548,14 @@ func final(x *netctl.Exec, st *state) {
 		return
 	}
 
+	obs := checkState(x, st, len(st.calls), "end")
+	x.Observe("%s", strings.Join(obs, " "))
+}
+
+// checkState is oracle 2 applied to the calls 1..upto, all of which have
+// finished (it runs after a synchronous commit returned, which implies that
+// every earlier commit and its callback are over, and at the very end).
+func checkState(x *netctl.Exec, st *state, upto int, when string) []string {
 	// Broker truth through an uncontrolled admin client.
 	h := nscen.Helper(x, st.cluster)
 	defer h.Close()
@@ -542,16 +563,20 @@ func final(x *netctl.Exec, st *state) {
 	defer cancel()
 	fetched, err := kadm.NewClient(h).FetchOffsets(ctx, "g")
 	if err != nil {
-		x.Violate("harness:offsetfetch", "admin OffsetFetch: %v", err)
-		return
+		x.Violate("harness:offsetfetch", "admin OffsetFetch (%s): %v", when, err)
+		return nil
 	}
 	view := st.cl.CommittedOffsets()
 
 	st.mu.Lock()
 	defer st.mu.Unlock()
+	calls := st.calls[:upto]
 	var obs []string
-	for _, c := range st.calls {
+	for _, c := range calls {
 		switch {
+		case !c.done:
+			x.Violate("harness:unfinished", "call %d not finished at state check %s", c.idx, when)
+			return nil
 		case c.noop:
 			obs = append(obs, fmt.Sprintf("c%d=noop", c.idx))
 		case c.err != nil:
@@ -576,7 +601,7 @@ func final(x *netctl.Exec, st *state) {
 	for p := int32(0); p < 2; p++ {
 		// S: last call in issue order that reported success for p.
 		last := 0
-		for _, c := range st.calls {
+		for _, c := range calls {
 			if c.success(p) {
 				last = c.idx
 			}
@@ -591,7 +616,7 @@ func final(x *netctl.Exec, st *state) {
 			brokerOK[v] = fmt.Sprintf("call %d", last)
 			viewOK[v] = fmt.Sprintf("call %d", last)
 		}
-		for _, c := range st.calls {
+		for _, c := range calls {
 			if c.idx <= last || c.noop || !c.known {
 				continue
 			}
@@ -615,13 +640,13 @@ func final(x *netctl.Exec, st *state) {
 		b := int64(-1)
 		if o, ok := fetched.Lookup("t", p); ok {
 			if o.Err != nil {
-				x.Violate("harness:offsetfetch", "admin OffsetFetch t/%d: %v", p, o.Err)
+				x.Violate("harness:offsetfetch", "admin OffsetFetch t/%d (%s): %v", p, when, o.Err)
 				continue
 			}
 			b = o.At
 		}
 		if _, ok := brokerOK[b]; !ok {
-			x.Violate("broker-offset-mismatch", "t/%d: group's committed offset is %d, but the last commit that reported success for it is %s (allowed: %v); calls: %s", p, b, describe(st, last, p), keys(brokerOK), strings.Join(obs, " "))
+			x.Violate("broker-offset-mismatch", "%s, t/%d: group's committed offset is %d, but the last commit that reported success for it is %s (allowed: %v); calls: %s", when, p, b, describe(st, last, p), keys(brokerOK), strings.Join(obs, " "))
 		}
 
 		cv, present := int64(-2), false
@@ -633,18 +658,18 @@ func final(x *netctl.Exec, st *state) {
 		stable := st.assigned[p] == 1 && st.taken[p] == 0
 		switch {
 		case !present && stable:
-			x.Violate("client-view-mismatch", "t/%d: polled, still assigned, but absent from CommittedOffsets(); calls: %s", p, strings.Join(obs, " "))
+			x.Violate("client-view-mismatch", "%s, t/%d: polled, still assigned, but absent from CommittedOffsets(); calls: %s", when, p, strings.Join(obs, " "))
 		case !present:
 			obs = append(obs, fmt.Sprintf("v%d=gone", p))
 		case stable:
 			if _, ok := viewOK[cv]; !ok {
-				x.Violate("client-view-mismatch", "t/%d: CommittedOffsets() reports %d, but the last commit that reported success for it is %s (allowed: %v; broker has %d); calls: %s", p, cv, describe(st, last, p), keys(viewOK), b, strings.Join(obs, " "))
+				x.Violate("client-view-mismatch", "%s, t/%d: CommittedOffsets() reports %d, but the last commit that reported success for it is %s (allowed: %v; broker has %d); calls: %s", when, p, cv, describe(st, last, p), keys(viewOK), b, strings.Join(obs, " "))
 			}
 		default:
 			// Reassigned during the run: the view was re-read from the broker at
 			// some point; it must be the last success or what the broker holds.
 			if _, ok := viewOK[cv]; !ok && cv != b {
-				x.Violate("client-view-mismatch", "t/%d (reassigned): CommittedOffsets() reports %d, neither the last successful commit %s nor the broker's %d; calls: %s", p, cv, describe(st, last, p), b, strings.Join(obs, " "))
+				x.Violate("client-view-mismatch", "%s, t/%d (reassigned): CommittedOffsets() reports %d, neither the last successful commit %s nor the broker's %d; calls: %s", when, p, cv, describe(st, last, p), b, strings.Join(obs, " "))
 			}
 		}
 		obs = append(obs, fmt.Sprintf("b%d=%d", p, b))
@@ -652,7 +677,7 @@ func final(x *netctl.Exec, st *state) {
 			obs = append(obs, fmt.Sprintf("v%d=%d", p, cv))
 		}
 	}
-	x.Observe("%s", strings.Join(obs, " "))
+	return obs
 }
 
 func describe(st *state, last int, p int32) string {
